@@ -30,7 +30,7 @@ enum WKind {
     Wait,
     /// wait_while(no ticket)
     WaitWhile,
-    /// one wait_timeout(d); takes a ticket if there is one afterwards, else gives up
+    /// one wait_timeout(d), then leaves without a ticket (passing a notification it received on)
     Timed(u64),
 }
 
@@ -38,7 +38,7 @@ enum WKind {
 struct ParamsC {
     rt: RtCfg,
     waiters: Vec<(Ctx, WKind, u32)>,
-    notifiers: Vec<(Ctx, u32, bool, u32)>, // ctx, tickets, notify while holding the lock, dally between
+    notifiers: Vec<(Ctx, u32, bool, u32, u64)>, // ctx, tickets, notify while holding the lock, dally between, virtual delay before each
     broadcast: bool,
     cancel: Option<(usize, u32)>,
 }
@@ -60,8 +60,27 @@ fn gen_c(seed: u64) -> ParamsC {
     let broadcast = r.chance(1, 4);
     // one ticket per waiter, spread over 1..2 notifiers
     let nn = r.range(1, 2) as usize;
-    let mut notifiers: Vec<(Ctx, u32, bool, u32)> = (0..nn).map(|_| (Ctx::gen(&mut r), 0, r.chance(1, 2), r.below(10) as u32)).collect();
-    for _ in 0..nw {
+    // half of the notifiers act about when a timed waiter's timeout expires: the notification
+    // then meets a waiter that is just leaving and has to be passed on
+    let timed: Vec<u64> = waiters.iter().filter_map(|w| if let WKind::Timed(d) = w.1 { Some(d) } else { None }).collect();
+    let mut notifiers: Vec<(Ctx, u32, bool, u32, u64)> = (0..nn)
+        .map(|_| {
+            let delay = if !timed.is_empty() && r.chance(1, 2) {
+                let d = *r.pick(&timed);
+                let d = d.div_ceil(1_000_000).max(1) * 1_000_000;
+                d.saturating_sub(*r.pick(&[0u64, 0, 1_000, 5_000, 20_000]))
+            } else {
+                0
+            };
+            (Ctx::gen(&mut r), 0, r.chance(1, 2), r.below(10) as u32, delay)
+        })
+        .collect();
+    // one ticket (and one notify_one) per waiter that insists on one; timed waiters are
+    // passers-by: they never take a ticket, so every notification that reaches one of them -
+    // on its way out after a timeout (the library passes it on) or still waiting (it passes it
+    // on itself) - is needed by somebody else
+    let untimed = waiters.iter().filter(|w| !matches!(w.1, WKind::Timed(_))).count();
+    for _ in 0..untimed.max(1) {
         let k = r.below(nn as u64) as usize;
         notifiers[k].1 += 1;
     }
@@ -126,6 +145,7 @@ pub fn run_condvar(seed: u64, mut ov: impl FnMut(&mut engine::Cfg)) -> ! {
             occ_enter(&nm, "lock()");
             let mut inside = OccOnUnwind(true);
             let ready = |s: &State| if broadcast { s.flag } else { s.tickets > 0 };
+            let mut take = true;
             match kind {
                 WKind::Wait => {
                     while !ready(&g) {
@@ -147,6 +167,7 @@ pub fn run_condvar(seed: u64, mut ov: impl FnMut(&mut engine::Cfg)) -> ! {
                     }
                 }
                 WKind::Timed(d) => {
+                    take = false;
                     if !ready(&g) {
                         occ_leave();
                         inside.0 = false;
@@ -159,10 +180,16 @@ pub fn run_condvar(seed: u64, mut ov: impl FnMut(&mut engine::Cfg)) -> ! {
                         if res.timed_out() && t1 < t0 + d {
                             violation(&format!("{}: Condvar::wait_timeout({} ns) timed out after {} ns", nm, d, t1 - t0));
                         }
+                        // a waiter that timed out just leaves: a notification that met it on its way
+                        // out must have been passed on by the library. One that was notified in
+                        // time has no use for the ticket and passes the notification on itself
+                        if !res.timed_out() && !broadcast && g.tickets > 0 {
+                            cv.notify_one();
+                        }
                     }
                 }
             }
-            if !broadcast && g.tickets > 0 {
+            if !broadcast && g.tickets > 0 && take {
                 g.tickets -= 1;
             }
             engine::point();
@@ -176,12 +203,15 @@ pub fn run_condvar(seed: u64, mut ov: impl FnMut(&mut engine::Cfg)) -> ! {
         }));
     }
     let n_waiters = actors.len();
-    for (ni, (ctx, tickets, holding, dally)) in p.notifiers.iter().cloned().enumerate() {
+    for (ni, (ctx, tickets, holding, dally, delay)) in p.notifiers.iter().cloned().enumerate() {
         let pair = pair.clone();
         let name = format!("notifier{}", ni);
         actors.push(rt::spawn_actor(ctx, &name, move || {
             let (m, cv) = (&pair.0, &pair.1);
-            for _ in 0..tickets {
+            for k in 0..tickets {
+                if delay > 0 && k == 0 {
+                    rt::nap(delay);
+                }
                 rt::dally(dally);
                 let mut g = m.lock().unwrap();
                 occ_enter("notifier", "lock()");
